@@ -160,6 +160,7 @@ type methodInfo struct {
 	Origin  string // "own" | "stub" (promoted from an embedded interface) | "core:<pkg>.<Type>" (promoted from an embedded struct)
 	Depth   int
 	Params  []string
+	PNames  []string
 	NRes    int
 	Resp    bool
 	Decl    *ast.FuncDecl // nil for interface methods
@@ -191,6 +192,20 @@ func paramKind(t ast.Expr) string {
 		}
 		return "other:" + s
 	}
+}
+
+func paramNames(ft *ast.FuncType) (names []string) {
+	if ft.Params != nil {
+		for _, fld := range ft.Params.List {
+			if len(fld.Names) == 0 {
+				names = append(names, "_")
+			}
+			for _, n := range fld.Names {
+				names = append(names, n.Name)
+			}
+		}
+	}
+	return
 }
 
 func sigOf(ft *ast.FuncType, inBoltvmPkg bool) (params []string, nres int, resp bool) {
@@ -272,7 +287,7 @@ func (l *loader) methodSet(pkg *pkgInfo, typeName string) []*methodInfo {
 						continue
 					}
 					ps, nr, rs := sigOf(ft, strings.HasSuffix(p.path, "/boltvm"))
-					add(&methodInfo{Name: n.Name, Origin: "stub", Depth: depth, Params: ps, NRes: nr, Resp: rs, DeclPkg: p})
+					add(&methodInfo{Name: n.Name, Origin: origin, Depth: depth, Params: ps, PNames: paramNames(ft), NRes: nr, Resp: rs, DeclPkg: p})
 				}
 			}
 		case *ast.StructType:
@@ -285,7 +300,7 @@ func (l *loader) methodSet(pkg *pkgInfo, typeName string) []*methodInfo {
 				if org == "" {
 					org = "own"
 				}
-				add(&methodInfo{Name: fd.Name.Name, Origin: org, Depth: depth, Params: ps, NRes: nr, Resp: rs, Decl: fd, DeclPkg: p})
+				add(&methodInfo{Name: fd.Name.Name, Origin: org, Depth: depth, Params: ps, PNames: paramNames(fd.Type), NRes: nr, Resp: rs, Decl: fd, DeclPkg: p})
 			}
 			for _, fld := range tt.Fields.List {
 				if len(fld.Names) != 0 {
@@ -395,6 +410,12 @@ func callsIn(n ast.Node) []string {
 	ast.Inspect(n, func(x ast.Node) bool {
 		if c, ok := x.(*ast.CallExpr); ok {
 			_, nm := calleeName(c)
+			if nm == "CrossInvoke" && len(c.Args) >= 2 {
+				if bl, ok := c.Args[1].(*ast.BasicLit); ok && bl.Kind == token.STRING {
+					lit, _ := strconv.Unquote(bl.Value)
+					nm = "CrossInvoke:" + lit
+				}
+			}
 			if nm != "" && !noiseCalls[nm] {
 				out = append(out, nm)
 			}
@@ -638,6 +659,26 @@ func (g *guardCtx) analyse(fd *ast.FuncDecl) guardPat {
 				}
 			}
 		}
+		// --- inline admin check:
+		//       a := x.Caller(); res := x.CrossInvoke(role, "IsAnyAvailableAdmin", pb.String(a), ...);
+		//       [if !res.Ok { return }]; if string(res.Result) != TRUE { return }
+		if as, ok := st.(*ast.AssignStmt); ok && len(as.Rhs) == 1 && len(as.Lhs) == 1 {
+			if c, ok := as.Rhs[0].(*ast.CallExpr); ok {
+				if r, n := calleeName(c); r == rn && n == "CrossInvoke" && len(c.Args) >= 3 {
+					if bl, ok := c.Args[1].(*ast.BasicLit); ok && bl.Value == "\"IsAnyAvailableAdmin\"" {
+						who := adminSubject(before, c.Args[2], rn)
+						resVar := exprString(as.Lhs[0])
+						if who != "" && adminResultChecked(fd.Body.List[i+1:], resVar) {
+							pat.Kind = "callerAdmin"
+							pat.Impl = g.recvT
+							pat.Regulator = who
+							pat.Perms = []string{"PermissionAdmin"}
+							return pat
+						}
+					}
+				}
+			}
+		}
 		// --- ownership guard: if !x.authorised(name) { return ... }
 		if is, ok := st.(*ast.IfStmt); ok && is.Init == nil && endsWithReturn(is.Body) {
 			if ue, ok := is.Cond.(*ast.UnaryExpr); ok && ue.Op == token.NOT {
@@ -700,6 +741,63 @@ func (g *guardCtx) analyse(fd *ast.FuncDecl) guardPat {
 	}
 	// no guard found: the calls before "the guard" are of no interest
 	return guardPat{Kind: "none", Cmp: pat.Cmp}
+}
+
+// adminSubject: the argument pb.String(v) where v := x.Caller() / x.CurrentCaller() earlier in the body
+func adminSubject(before []ast.Stmt, arg ast.Expr, rn string) string {
+	c, ok := arg.(*ast.CallExpr)
+	if !ok || len(c.Args) != 1 {
+		return ""
+	}
+	if r, n := calleeName(c); r != "pb" || n != "String" {
+		return ""
+	}
+	if r, n := calleeName0(c.Args[0]); r == rn && (n == "Caller" || n == "CurrentCaller") {
+		return n
+	}
+	id, ok := c.Args[0].(*ast.Ident)
+	if !ok {
+		return ""
+	}
+	who := ""
+	for _, s := range before {
+		as, ok := s.(*ast.AssignStmt)
+		if !ok || len(as.Lhs) != 1 || len(as.Rhs) != 1 || exprString(as.Lhs[0]) != id.Name {
+			continue
+		}
+		who = ""
+		if r, n := calleeName0(as.Rhs[0]); r == rn && (n == "Caller" || n == "CurrentCaller") {
+			who = n
+		}
+	}
+	return who
+}
+
+// adminResultChecked: among the next two statements there is `if string(res.Result) != TRUE { ...return }`
+func adminResultChecked(after []ast.Stmt, resVar string) bool {
+	for k := 0; k < len(after) && k < 2; k++ {
+		is, ok := after[k].(*ast.IfStmt)
+		if !ok || !endsWithReturn(is.Body) {
+			return false
+		}
+		be, ok := is.Cond.(*ast.BinaryExpr)
+		if ok && be.Op == token.NEQ {
+			l, r := renderExpr(be.X), renderExpr(be.Y)
+			want := "string(" + resVar + ".Result)"
+			if (l == want && r == "TRUE") || (r == want && l == "TRUE") {
+				return true
+			}
+		}
+		if c := renderExpr(is.Cond); c == "!"+resVar+".Ok || \"false\" == string("+resVar+".Result)" ||
+			c == "!"+resVar+".Ok || FALSE == string("+resVar+".Result)" {
+			return true
+		}
+		// otherwise it must be the `if !res.Ok { return }` check
+		if renderExpr(is.Cond) != "!"+resVar+".Ok" {
+			return false
+		}
+	}
+	return false
 }
 
 func calleeName0(e ast.Expr) (string, string) {
@@ -952,6 +1050,20 @@ func genSurface(coreDir string) {
 				gstr(r.TypeName), gstr(m.Name), gstr(m.Origin), glistStr(m.Params), m.NRes, resp,
 				gstr(g.Kind), gstr(g.Impl), glistStr(g.Perms), glistStr(g.Specific), gstr(g.Target), gstr(g.Regulator),
 				glistStr(g.Via), glistStr(g.Pre), glistStr(g.Cmp))
+		}
+	}
+	v.b.WriteString("].\n\n")
+
+	v.b.WriteString("(* parameter names (used by the argument generator of checks/C17.py only) *)\n")
+	v.b.WriteString("Definition surface_param_names : list (string * string * list string) :=\n  [")
+	first = true
+	for _, r := range regs {
+		for _, m := range l.methodSet(cpkg, r.TypeName) {
+			if !first {
+				v.b.WriteString(";\n   ")
+			}
+			first = false
+			fmt.Fprintf(&v.b, "(%s, %s, %s)", gstr(r.TypeName), gstr(m.Name), glistStr(m.PNames))
 		}
 	}
 	v.b.WriteString("].\n\n")
